@@ -193,7 +193,7 @@ def write (l : Layer) (rest : List Layer) (inner : Bytes) (parent : Option Layer
     ipTail (hdr ++ o ++ zeros (pad4 (ipOptSize opts) - ipOptSize opts) ++ inner) hs
   | .ip6 tc flow hop nh src dst exts =>
     let lastNh := match nxt with
-      | none => 0
+      | none => 59                                                      -- NO_NEXT_HEADER: nothing follows
       | some n => if flagToIp n ≠ 0xff then flagToIp n else nh
     let first := match exts with
       | [] => lastNh
